@@ -177,7 +177,8 @@ Fixpoint route_rt (star : list tval -> tval -> tval) (e : aexpr) : tval :=
 Definition star_runtime (pre : list tval) (s : tval) : tval :=
   TSeq (single pre ++ [(false, TGeneric tuple_c [s])]).
 (* value_of_annotation: the starred subscript is not understood; the result is tuple[Any] *)
-Definition star_visitor (pre : list tval) (s : tval) : tval := TSeq [(false, TAny)].
+Definition star_visitor (pre : list tval) (s : tval) : tval :=
+  if existsb (has_tag true) pre || has_tag true s then TCrash else TSeq [(false, TAny)].
 
 Definition route_runtime : aexpr -> tval := route_rt star_runtime.
 Definition route_visitor : aexpr -> tval := route_rt star_visitor.
